@@ -1526,6 +1526,10 @@ class Exec:
             raise Unsupported('operator<< on %r' % type(a0))
         args = [s.expr(a) for a in n['inner'][1:]]
         a0 = rval(args[0]) if args else None
+        if hasattr(a0, 'op_call') and len(args) == 2:
+            r = a0.op_call(op, rval(args[1]))       # model objects with their own operators (e.g. boost::format % argument)
+            if r is not NotImplemented:
+                return r
         if op in ('operator[]', 'operator()'):
             if isinstance(a0, Lambda):
                 return a0(*[rval(a) for a in args[1:]])
